@@ -176,7 +176,27 @@ def run(mutants, jobs=16):
 
 
 def run_for_property(pid):
-    ms = [m for m in load_mutants() + load_seeded() + load_transforms() if m['prop'] == pid]
+    from droopsa.props import PROPS
+    my_fns = dict(PROPS[pid]['rules'])
+
+    class _Same(object):
+        def __contains__(self, rid):
+            return rid in my_fns
+    my_rules = _Same()
+
+    def same_rule(m):
+        home = dict(PROPS.get(m['prop'], {}).get('rules', []))
+        return m.get('rule') in my_fns and home.get(m['rule']) is my_fns[m['rule']]
+    ms = []
+    for m in load_mutants() + load_seeded() + load_transforms():
+        if m['prop'] == pid:
+            ms.append(m)
+        elif same_rule(m) and not m.get('patch') and not m.get('transform'):
+            # a mutant written for another property whose rule also runs under this one: it must be reported here as well
+            m2 = dict(m)
+            m2['prop'] = pid
+            m2['id'] = m['id'] + '@' + pid
+            ms.append(m2)
     t0 = time.time()
     rs = run(ms)
     return dict(mutants=len(rs),
